@@ -296,6 +296,8 @@ def c07_plan(tier, seed):
     out += sw[30:35] if q else sw[20:36]
     st = jobs("os-debug", "c07", 60, c07_env, {"cases": 20 if q else 300, "storm": 1}, timeout=3000)
     out += st[40:43] if q else st[40:56]
+    pr = jobs("os-debug", "c07", 80, None, {"cases": 8 if q else 120, "pair": 1}, timeout=3000)
+    out += pr[60:66] if q else pr[60:76]
     out += jobs("inproc-debug", "c07", 2 if q else 6, None, {"cases": 40 if q else 300}, timeout=3000)
     return out
 
@@ -309,6 +311,8 @@ def c07_require(agg):
         need.append("fewer than 100 messages queued before registration")
     if st.get("max_routes_in_one_router", 0) < 24:
         need.append("no router with >=24 routes")
+    if st.get("pair_storm_trials", 0) < 5000:
+        need.append("fewer than 5000 registration pairs")
     return need
 
 
